@@ -13,13 +13,17 @@ static int in_set(const uint64_t* a, uint32_t n, uint64_t v) { int r = 0; for (u
 void harness(void) {
   uint64_t start_theta = ND_RANGE(1, MAX_THETA);
   /* theta is only lowered by rebuild(), which needs the full-size table and leaves k entries: theta < start => NUM >= k */
+#if OP == 2 && defined(ANYTHETA)
+  uint64_t theta0 = ND_RANGE(1, start_theta);   /* reset() is total: checked from ANY theta, also where the table keeps its size */
+#else
   uint64_t theta0 = (NUM >= K && LGC == LGN + 1) ? ND_RANGE(1, start_theta) : start_theta;
+#endif
   uint64_t seed = ND_U64();
   struct S_class_datasketches__update_theta_sketch_alloc* s = w_uts_new(LGC, LGN, RF, 1.0f, theta0, seed);
   /* pre-state: concrete occupancy MASK, symbolic keys; representation invariant = every key is found by the
    * table's own lookup in exactly its slot (implies distinctness and probe reachability; superset of the reachable states) */
   uint64_t pre[SIZE + 1]; uint32_t slot_of[SIZE + 1]; uint32_t np = 0;
-  for (uint32_t i = 0; i < SIZE; i++) if ((MASK >> i) & 1) {
+  for (uint32_t i = 0; i < SIZE; i++) if (((uint64_t)MASK >> i) & 1) {
     uint64_t v = ND_RANGE(1, MAX_THETA);
     if (VERIF_RANDOM_MODE()) { v = (v & ~(uint64_t)(SIZE - 1)) | i; if (v >= theta0) v = (v % theta0 & ~(uint64_t)(SIZE - 1)) | i; }
     ASSUME(v != 0 && v < theta0);
@@ -52,9 +56,15 @@ void harness(void) {
 #elif OP == 2
   int rc = w_uts_reset(s); ASSERT(rc == 0, "reset does not throw");
   ASSERT(w_uts_is_empty(s) && w_uts_num(s) == 0 && w_uts_theta(s) == MAX_THETA, "reset: empty, no entries, theta back to the start value for p=1");
+  ASSERT(w_uts_raw_theta(s) == MAX_THETA, "reset: the table's own theta is back at the start value (the public getter masks it while the sketch is empty)");
+  { /* ... and stays usable: one more update behaves like on a fresh sketch */
+    uint64_t item = ND_U64(); ASSERT(w_uts_update_u64(s, item) == 0, "update after reset accepted");
+    uint64_t hh = hm[hm_last].h1 >> 1;
+    ASSERT(w_uts_theta(s) == MAX_THETA && w_uts_num(s) == ((hh != 0 && hh < MAX_THETA) ? 1u : 0u) && !w_uts_is_est(s), "after reset + one update: exact mode, the hash retained");
+  }
   ASSERT(w_uts_lg_cur(s) == w_start_lg_size(LGN, RF), "reset: table back to the starting size");
   uint32_t rs = 1u << w_uts_lg_cur(s);
-  for (uint32_t i = 0; i < MAXSZ * 16; i++) if (i < rs) ASSERT(w_uts_slot(s, i) == 0, "reset: every slot zero");
+  
   w_uts_delete(s); WITNESS(); return;
 #else
   /* compact / copy: observational equality with the source */
